@@ -51,6 +51,7 @@ THEOREMS = [_P + n for n in [
     "Scan.tokenizer_scan_loop_shape", "Scan.parser_glue_shape",
     "Scan.tokenizer_funnel_catches_exception", "Scan.tokenize_outcome", "Scan.tokenize_outcome_current_source",
     "Scan.tokenize_funnel_needs_broad_catch",
+    "peek_guarded_no_index_error", "peek_off_by_one_guard_index_error", "parser_forward_lookaheads_guarded",
 ]]
 
 # step budgets for the search oracle, calibrated on the clean tree with ≥ 10x margin (cov["calibration"] in the evidence
@@ -186,6 +187,64 @@ def tokenizer_facts(chk: Check):
             "funnel": funnel}
 
 
+def lookahead_facts(chk: Check):
+    """every direct index into `self._tokens[...]` (also through a local alias `tokens = self._tokens`) in parser.py and
+    parsers/*.py, with the bounds guards that dominate it (enclosing if / while tests, conditional-expression tests and the
+    left operands of an `and`), and every method that reads `self._next`"""
+    import glob
+    files = [os.path.join(REPO, "sqlglot", "parser.py")] + sorted(glob.glob(os.path.join(REPO, "sqlglot", "parsers", "*.py")))
+    sites, next_users = [], []
+    for path in files:
+        mod = os.path.basename(path)[:-3]
+        try:
+            tree = ast.parse(open(path, encoding="utf-8").read())
+        except Exception:  # noqa
+            chk.broken.append({"kind": "translator", "what": f"C05 translator: cannot parse {path}"})
+            continue
+        for cls in [n for n in tree.body if isinstance(n, ast.ClassDef)]:
+            for fn in [n for n in cls.body if isinstance(n, ast.FunctionDef)]:
+                alias = {"__none__"}
+                for n in ast.walk(fn):
+                    if isinstance(n, ast.Assign) and _is_self_attr(n.value, "_tokens"):
+                        alias |= {t.id for t in n.targets if isinstance(t, ast.Name)}
+                if any(_is_self_attr(n, "_next") and isinstance(n.ctx, ast.Load) for n in ast.walk(fn)):
+                    next_users.append(f"{mod}.{fn.name}")
+
+                def visit(node, guards):
+                    if isinstance(node, (ast.FunctionDef, ast.Lambda)) and node is not fn:
+                        for ch in ast.iter_child_nodes(node):
+                            visit(ch, guards)
+                        return
+                    if isinstance(node, (ast.If, ast.While)):
+                        visit(node.test, guards)
+                        for st in node.body:
+                            visit(st, guards + [_src(node.test)])
+                        for st in node.orelse:
+                            visit(st, guards + ["not (" + _src(node.test) + ")"])
+                        return
+                    if isinstance(node, ast.IfExp):
+                        visit(node.test, guards)
+                        visit(node.body, guards + [_src(node.test)])
+                        visit(node.orelse, guards + ["not (" + _src(node.test) + ")"])
+                        return
+                    if isinstance(node, ast.BoolOp) and isinstance(node.op, ast.And):
+                        acc = list(guards)
+                        for v in node.values:
+                            visit(v, acc)
+                            acc = acc + [_src(v)]
+                        return
+                    if isinstance(node, ast.Subscript) and (_is_self_attr(node.value, "_tokens") or (isinstance(node.value, ast.Name) and node.value.id in alias)):
+                        idx = _src(node.slice)
+                        bounds = [g for g in guards if any(w in g for w in ("_tokens_size", "len(self._tokens)", "size", "len(tokens)"))]
+                        sites.append((f"{mod}.{fn.name}", idx, bounds[-1] if bounds else ""))
+                    for ch in ast.iter_child_nodes(node):
+                        visit(ch, guards)
+
+                for st in fn.body:
+                    visit(st, [])
+    return {"sites": sites, "next_users": sorted(set(next_users))}
+
+
 def wrapper_facts(chk: Check):
     """the thin wrappers between the public API and TokenizerCore.tokenize / Parser.parse: their bodies must stay
     pass-through (a try/except added there would be a second funnel the pin above does not see)"""
@@ -265,6 +324,13 @@ def translate(chk: Check) -> str:
         f"def tokenizeTryGuardsScan : Bool := {'true' if tf.get('funnel', {}).get('guards_scan') else 'false'}\n",
         "-- number of try statements in the pass-through wrappers between the public API and the two funnels\n",
         "def wrapperTryCounts : List (String × Nat) := [" + ", ".join(f"({lean_str(k)}, {v})" for k, v in sorted(wrapper_facts(chk).items())) + "]\n",
+        "-- Parser: every direct index into the token list (function, index expression, dominating bounds guard or \"\")\n",
+        "-- forward lookaheads (index expression contains `+`): these are the ones that can run past the end of a chunk\n",
+        "def forwardLookaheadSites : List (String × String × String) := [\n" + ",\n".join(
+            f"  ({lean_str(f)}, {lean_str(i)}, {lean_str(g)})" for f, i, g in lookahead_facts(chk)["sites"] if "+" in i) + "]\n",
+        "def otherTokenIndexSites : List (String × String × String) := [\n" + ",\n".join(
+            f"  ({lean_str(f)}, {lean_str(i)}, {lean_str(g)})" for f, i, g in lookahead_facts(chk)["sites"] if "+" not in i) + "]\n",
+        _lean_strs("nextUsers", lookahead_facts(chk)["next_users"]),
         "-- Parser glue\n",
         _lean_strs("retreatBody", pf["retreat"]),
         _lean_strs("tryParseFinally", pf["try_finally"]),
@@ -596,12 +662,22 @@ def with_watchdog(fn, timeout=WATCHDOG_S):
         signal.signal(signal.SIGALRM, old)
 
 
+CURSOR_PRIMITIVES = {"_advance", "_retreat", "_match", "_match_set", "_match_pair", "_match_texts", "_match_text_seq", "_advance_any",
+                     "expression", "validate_expression", "raise_error", "_match_l_paren", "_match_r_paren", "_add_comments"}
+
+
 def innermost_sqlglot_frame(e: BaseException) -> str:
+    """crash site: the innermost sqlglot frame, looking through the parser's generic cursor primitives to their caller (an
+    IndexError 'in _advance' says nothing about which method advanced past the end)"""
     tb = traceback.extract_tb(e.__traceback__)
+    first = None
     for fr in reversed(tb):
         if "sqlglot" in fr.filename and "/vf/" not in fr.filename:
-            return os.path.basename(fr.filename)[:-3] + "." + fr.name
-    return "?"
+            name = os.path.basename(fr.filename)[:-3] + "." + fr.name
+            first = first or name
+            if not (fr.filename.endswith("parser.py") and fr.name in CURSOR_PRIMITIVES):
+                return name
+    return first or "?"
 
 
 GENERIC_PARSE_HELPERS = {"_parse_var", "_parse_placeholder", "_parse_wrapped", "_parse_csv", "_parse_wrapped_csv", "_parse_id_var",
@@ -961,6 +1037,42 @@ def safe_base_tokenize(sql: str):
         MON.t_steps, MON.t_cap = old
 
 
+def safe_tokenize(sql: str, dialect):
+    """tokens of `sql` in `dialect` for the harness' own use, under the step cap and the watchdog; None when it fails"""
+    *_, Dialect, _ = sg()
+    MON.install()
+    old = (MON.t_steps, MON.t_cap)
+    MON.t_steps, MON.t_cap = 0, 50 * (len(sql) + 2)
+    try:
+        return with_watchdog(lambda: Dialect.get_or_raise(dialect or None).tokenize(sql), 5.0)
+    except BaseException:  # noqa
+        return None
+    finally:
+        MON.t_steps, MON.t_cap = old
+
+
+def prefix_sweep(dialects, quick=False):
+    """systematic truncation: for every corpus statement and EVERY token position, the prefix ending at that position, alone
+    and followed by `; SELECT 2` (so the chunk ends right there), in the base dialect and in the statement's own dialect.
+    yields (sql, dialect)"""
+    for own, stmts in [("", STATIC_CORPUS)] + sorted(DIALECT_CORPUS.items()):
+        if own and own not in dialects:
+            continue
+        for si, stmt in enumerate(stmts):
+            toks = safe_tokenize(stmt, own) or safe_tokenize(stmt, "")
+            if not toks:
+                continue
+            other = own if own else dialects[(si * 7 + 3) % len(dialects)]
+            ends = sorted({t.end + 1 for t in toks if t.end + 1 <= len(stmt)})
+            for pi, e in enumerate(ends):
+                pre = stmt[:e]
+                ds = sorted({"", other}) if other else [""]
+                for di, d in enumerate(ds):
+                    yield pre, d
+                    if not quick or (pi + di) % 2 == 0 or len(ds) == 1:
+                        yield pre + "; SELECT 2", d
+
+
 def split_tokens(sql: str) -> list:
     """token texts of `sql` as seen by the base tokenizer (falls back to whitespace splitting)"""
     toks = safe_base_tokenize(sql)
@@ -1104,7 +1216,7 @@ def tokenizer_stream(dialect, rng, quick=True):
     words += extra if not quick else rng.sample(extra, min(25, len(extra)))
     for k in words:
         for v in case_variants(k):
-            for cont in TOK_CONTINUATIONS:
+            for cont in (TOK_CONTINUATIONS[:10] if quick else TOK_CONTINUATIONS):
                 body = v + cont.replace("{K}", v)
                 yield body
                 yield "SELECT " + body
@@ -1182,6 +1294,7 @@ def table_keywords(dialect) -> dict:
                 return fn
         return dct.get(k)
 
+    entry_specific = set()
     allk, loop, specific = set(), set(), set()
     for table in DISPATCH_TABLES:
         dct = getattr(pc, table, None)
@@ -1193,6 +1306,9 @@ def table_keywords(dialect) -> dict:
             if not t_:
                 continue
             allk.add(t_)
+            if table in ("STATEMENT_PARSERS", "FUNCTION_PARSERS", "NO_PAREN_FUNCTION_PARSERS", "PROPERTY_PARSERS", "CONSTRAINT_PARSERS") \
+                    and pc is not base and (k not in bdct or orig(dct, k) is not orig(bdct, k)):
+                entry_specific.add(t_)
             if table in LOOP_TABLES:
                 loop.add(t_)
                 if pc is not base and (k not in bdct or orig(dct, k) is not orig(bdct, k)):
@@ -1210,7 +1326,7 @@ def table_keywords(dialect) -> dict:
             loop.add(t_)
             if pc is not base and k not in bst:
                 specific.add(t_)
-    _TK_CACHE[dialect] = {"specific": sorted(specific), "loop": sorted(loop), "all": sorted(allk)}
+    _TK_CACHE[dialect] = {"specific": sorted(specific), "loop": sorted(loop), "all": sorted(allk), "entry_specific": sorted(entry_specific)}
     return _TK_CACHE[dialect]
 
 
@@ -1248,6 +1364,194 @@ def dialect_keywords(dialect):
         kws = sorted(k for k in d.tokenizer_class.KEYWORDS if k and "\n" not in k)
         _KW_CACHE[dialect] = kws or SOUP
     return _KW_CACHE[dialect]
+
+
+
+# ---- corpus of (mostly) valid statements for the systematic prefix sweep: every prefix that ends at a token boundary is
+# tried (alone, followed by `; SELECT 2`, and preceded by `SELECT 1; `) — manual lookaheads (`self._tokens[self._index + k]`,
+# `self._next`, text peeks, `_prev`-driven loops) fail exactly where a chunk ends
+STATIC_CORPUS = [
+    "SELECT x + 1 WINDOW w AS (PARTITION BY a ORDER BY b)",
+    "SELECT RANK() OVER w, SUM(a) OVER (w ROWS BETWEEN UNBOUNDED PRECEDING AND CURRENT ROW) FROM t WINDOW w AS (PARTITION BY b), w2 AS (w ORDER BY c)",
+    "SELECT a AS x, b y, c FROM t AS u (p, q) WHERE a BETWEEN 1 AND 2 AND b NOT IN (1, 2) OR c IS NOT DISTINCT FROM d",
+    "SELECT CASE a WHEN 1 THEN 'x' WHEN 2 THEN 'y' ELSE 'z' END, CASE WHEN a > 1 THEN b END FROM t",
+    "SELECT CAST(a AS DECIMAL(10, 2)), TRY_CAST(b AS ARRAY<STRUCT<x INT, y MAP<TEXT, INT>>>), c::TIMESTAMP WITH TIME ZONE FROM t",
+    "SELECT a FROM t1 LEFT OUTER JOIN t2 ON t1.a = t2.a AND t1.b < t2.b CROSS JOIN t3 NATURAL FULL JOIN t4 USING (k)",
+    "WITH RECURSIVE r (n) AS (SELECT 1 UNION ALL SELECT n + 1 FROM r WHERE n < 5), s AS MATERIALIZED (SELECT 2) SELECT * FROM r, s",
+    "SELECT a, COUNT(*) FILTER (WHERE b > 1) FROM t GROUP BY ROLLUP (a, b), GROUPING SETS ((a), ()) HAVING COUNT(*) > 1 ORDER BY 2 DESC NULLS LAST LIMIT 10 OFFSET 5",
+    "SELECT * FROM (SELECT a FROM t) AS s PIVOT (SUM(a) FOR b IN ('x' AS x1, 'y')) AS p UNPIVOT (v FOR k IN (c1, c2))",
+    "SELECT a FROM t TABLESAMPLE BERNOULLI (10 PERCENT) REPEATABLE (42) AS u WHERE EXISTS (SELECT 1 FROM v WHERE v.a = u.a)",
+    "SELECT INTERVAL '1' DAY + DATE '2020-01-01', EXTRACT(YEAR FROM d), TRIM(LEADING 'x' FROM s), SUBSTRING(s FROM 1 FOR 2), POSITION('a' IN s) FROM t",
+    "SELECT a[1], b['k'], c.d.e, f(g => 1), ARRAY[1, 2], MAP(1, 2), STRUCT(1 AS a), (1, 2), x -> x + 1, (x, y) -> x + y FROM t",
+    "SELECT a LIKE 'x%' ESCAPE '!', b ILIKE ANY ('x', 'y'), c SIMILAR TO 'z', d RLIKE 'r', e NOT LIKE ALL (ARRAY['q']) FROM t",
+    "SELECT DISTINCT ON (a) a, b FROM t FOR UPDATE OF t NOWAIT",
+    "SELECT 1 UNION ALL SELECT 2 INTERSECT DISTINCT SELECT 3 EXCEPT SELECT 4 ORDER BY 1 LIMIT 1",
+    "(SELECT a FROM t ORDER BY a LIMIT 1) UNION (SELECT b FROM u) ORDER BY 1",
+    "VALUES (1, 'a'), (2, 'b')",
+    "INSERT INTO t (a, b) SELECT a, b FROM u ON CONFLICT (a) DO UPDATE SET b = EXCLUDED.b WHERE t.a > 1 RETURNING a, b",
+    "INSERT INTO t VALUES (1, DEFAULT), (2, NULL)",
+    "UPDATE t AS u SET a = 1, b = (SELECT MAX(c) FROM v) FROM w WHERE u.k = w.k RETURNING *",
+    "DELETE FROM t USING u WHERE t.a = u.a AND u.b IS NULL RETURNING t.a",
+    "MERGE INTO t USING (SELECT 1 AS a) AS s ON t.a = s.a WHEN MATCHED AND s.a > 1 THEN UPDATE SET a = s.a WHEN NOT MATCHED BY TARGET THEN INSERT (a) VALUES (s.a) WHEN NOT MATCHED BY SOURCE THEN DELETE",
+    "CREATE TABLE IF NOT EXISTS db.t (a INT NOT NULL DEFAULT 0 PRIMARY KEY, b VARCHAR(10) UNIQUE REFERENCES u (b) ON DELETE CASCADE, c DECIMAL(10, 2) CHECK (c > 0), CONSTRAINT pk PRIMARY KEY (a, b), FOREIGN KEY (c) REFERENCES v (c)) PARTITION BY (a) COMMENT 'x'",
+    "CREATE TABLE t AS SELECT 1 AS a WITH NO DATA",
+    "CREATE OR REPLACE TEMPORARY VIEW v (a, b) AS SELECT 1, 2 WITH CHECK OPTION",
+    "CREATE MATERIALIZED VIEW v AS SELECT a FROM t",
+    "CREATE UNIQUE INDEX CONCURRENTLY IF NOT EXISTS i ON t USING btree (a ASC NULLS FIRST, LOWER(b)) INCLUDE (c) WHERE a > 1",
+    "CREATE FUNCTION f(a INT, b TEXT DEFAULT 'x') RETURNS TABLE (c INT) LANGUAGE SQL IMMUTABLE AS 'SELECT 1'",
+    "CREATE SCHEMA IF NOT EXISTS s AUTHORIZATION u",
+    "CREATE SEQUENCE s START WITH 1 INCREMENT BY 2 MINVALUE 1 MAXVALUE 10 CYCLE",
+    "ALTER TABLE t ADD COLUMN IF NOT EXISTS c INT DEFAULT 1, DROP COLUMN d CASCADE, ALTER COLUMN e SET DATA TYPE TEXT, RENAME COLUMN f TO g",
+    "ALTER TABLE t ADD CONSTRAINT c FOREIGN KEY (a) REFERENCES u (a), DROP CONSTRAINT d, RENAME TO v",
+    "ALTER TABLE t ADD PARTITION (dt = '2020') LOCATION 'x'",
+    "DROP TABLE IF EXISTS a, b CASCADE",
+    "TRUNCATE TABLE a, b RESTART IDENTITY CASCADE",
+    "COPY t (a, b) FROM 's3://x' WITH (FORMAT CSV, HEADER TRUE, DELIMITER ',')",
+    "COPY INTO t FROM 's3://x' FILE_FORMAT = (TYPE = CSV) CREDENTIALS = (AWS_KEY_ID = 'k')",
+    "GRANT SELECT, INSERT (a) ON TABLE t TO ROLE r WITH GRANT OPTION",
+    "REVOKE ALL PRIVILEGES ON t FROM u",
+    "COMMENT ON TABLE t IS 'x'",
+    "ANALYZE TABLE t COMPUTE STATISTICS FOR COLUMNS a, b",
+    "EXPLAIN ANALYZE SELECT 1",
+    "DESCRIBE EXTENDED db.t",
+    "SHOW CREATE TABLE t",
+    "USE CATALOG c",
+    "SET x = 1, y = 'a'",
+    "BEGIN TRANSACTION ISOLATION LEVEL SERIALIZABLE",
+    "COMMIT AND CHAIN",
+    "ROLLBACK TO SAVEPOINT s",
+    "CALL p(1, a => 2)",
+    "DECLARE x INT DEFAULT 1",
+    "EXECUTE IMMEDIATE 'SELECT 1' USING 1 AS a",
+    "KILL QUERY 5",
+    "CACHE TABLE t AS SELECT 1",
+    "LOAD DATA LOCAL INPATH 'x' OVERWRITE INTO TABLE t PARTITION (a = 1)",
+    "PRAGMA table_info(t)",
+    "SELECT a /* c1 */, b -- c2\n FROM t /*+ hint */",
+    "SELECT $$x$$, $tag$ y $tag$, 'it''s', \"q\", `b`, [br], 1e3, 0x1F, .5, 1., 12abc",
+    "SELECT * FROM t MATCH_RECOGNIZE (PARTITION BY a ORDER BY b MEASURES FIRST(x) AS f ONE ROW PER MATCH AFTER MATCH SKIP PAST LAST ROW PATTERN (A B+ C?) DEFINE A AS a > 1, B AS b < 2)",
+    "SELECT a FROM t CONNECT BY PRIOR a = b START WITH a = 1",
+    "SELECT JSON_OBJECT('a': 1, 'b' VALUE 2 NULL ON NULL), JSON_ARRAYAGG(a ORDER BY b), x -> 'a' ->> 'b' #> '{c}' FROM t",
+    "SELECT ARRAY_AGG(DISTINCT a ORDER BY b DESC LIMIT 2), STRING_AGG(a, ',' ORDER BY b), LISTAGG(a, ',') WITHIN GROUP (ORDER BY b), PERCENTILE_CONT(0.5) WITHIN GROUP (ORDER BY a) FROM t",
+    "SELECT a FROM t WHERE b = ANY (SELECT 1) AND c > ALL (ARRAY[1]) AND (d, e) IN ((1, 2)) AND f IS UNKNOWN",
+    "SELECT IF(a, b, c), COALESCE(a, b), NULLIF(a, b), a ?: b, a ?? b, NOT a, -a, ~a, a || b, a % b, a DIV b, a << 1 FROM t",
+    "FROM t SELECT a",
+    "FROM t |> WHERE a > 1 |> SELECT a |> ORDER BY a |> LIMIT 1",
+    "SELECT a FROM t AT TIME ZONE 'UTC'",
+    "SELECT x AT TIME ZONE 'UTC', y COLLATE \"C\", CURRENT_DATE, CURRENT_TIMESTAMP(3), LOCALTIME FROM t",
+    "SELECT * FROM UNNEST([1, 2]) WITH OFFSET AS o, LATERAL (SELECT 1) AS l, TABLE(f(1)) AS g, ROWS FROM (f(1), g(2))",
+    "SELECT a FROM t FOR SYSTEM_TIME AS OF '2020' VERSION AS OF 1",
+    "SELECT TOP 3 PERCENT WITH TIES a FROM t",
+    "SELECT ALL a, * EXCEPT (b), * REPLACE (1 AS c), t.* EXCLUDE (d) RENAME (e AS f) FROM t",
+    "SELECT a FROM t QUALIFY ROW_NUMBER() OVER (PARTITION BY a ORDER BY b) = 1",
+    "SELECT a FROM t GROUP BY ALL ORDER BY ALL",
+    "SELECT a FROM t ORDER BY a OFFSET 1 ROWS FETCH NEXT 2 ROWS ONLY",
+    "SELECT a FROM t LIMIT 1, 2",
+    "SELECT {d '2020-01-01'}, {fn CONCAT('a', 'b')}, ?, :p, @v, $1, {{x}}, @@g",
+    "SELECT b'abc', x'1F', r'a\\b', N'x', e'\\n', U&'d\\0061t'",
+    "IF a THEN SELECT 1",
+    "WHILE a DO SELECT 1",
+]
+
+DIALECT_CORPUS = {
+    "trino": [
+        "WITH FUNCTION f(x int) RETURNS int BEGIN CASE x WHEN 1 THEN RETURN 1; WHEN 2 THEN RETURN 2; ELSE RETURN 3; END CASE; RETURN NULL; END SELECT f(1)",
+        "WITH FUNCTION f(x int) RETURNS int BEGIN CASE WHEN x > 1 THEN RETURN 1; END CASE; RETURN 0; END SELECT f(1)",
+        "WITH FUNCTION f(x int) RETURNS int BEGIN IF x > 1 THEN RETURN 1; ELSEIF x > 0 THEN RETURN 2; ELSE RETURN 3; END IF; END SELECT f(1)",
+        "WITH FUNCTION f() RETURNS int BEGIN DECLARE i int DEFAULT 0; WHILE i < 3 DO SET i = i + 1; END WHILE; RETURN i; END SELECT f()",
+        "WITH FUNCTION f() RETURNS int BEGIN DECLARE i int DEFAULT 0; top: LOOP SET i = i + 1; IF i > 3 THEN LEAVE top; END IF; ITERATE top; END LOOP; RETURN i; END SELECT f()",
+        "WITH FUNCTION f() RETURNS int BEGIN DECLARE i int DEFAULT 0; REPEAT SET i = i + 1; UNTIL i > 3 END REPEAT; RETURN i; END SELECT f()",
+        "WITH FUNCTION f(x int) RETURNS int RETURN x + 1 SELECT f(1)",
+        "SELECT a FROM t CROSS JOIN UNNEST(b) WITH ORDINALITY AS u (c, n) WHERE TRY(CAST(a AS INTEGER)) IS NOT NULL",
+        "SELECT JSON_QUERY(j, 'lax $.a' WITH ARRAY WRAPPER), JSON_VALUE(j, 'strict $.b' RETURNING INT DEFAULT 0 ON EMPTY) FROM t",
+    ],
+    "tsql": [
+        "IF x = 1 BEGIN SELECT 1 END ELSE BEGIN SELECT 2 END", "WHILE @i < 3 BEGIN SET @i = @i + 1 END", "DECLARE @t TABLE (a INT), @x INT = 1",
+        "CREATE PROCEDURE p @a INT = 1, @b VARCHAR(10) OUTPUT AS BEGIN SELECT @a END", "SELECT TOP 3 a FROM t WITH (NOLOCK) OPTION (RECOMPILE, MAXDOP 1)",
+        "BEGIN TRY SELECT 1 END TRY BEGIN CATCH SELECT 2 END CATCH", "EXEC p @a = 1", "SELECT a FROM t FOR XML PATH('x'), ROOT('r')", "SELECT x = a, y = b FROM t",
+        "CREATE TABLE t (a INT IDENTITY(1, 1), b AS (a + 1) PERSISTED, PERIOD FOR SYSTEM_TIME (s, e)) WITH (SYSTEM_VERSIONING = ON (HISTORY_TABLE = dbo.h))",
+        "SELECT a FROM t CROSS APPLY f(a) OUTER APPLY g(a)", "INSERT INTO t OUTPUT INSERTED.a VALUES (1)", "SELECT CONVERT(VARCHAR(10), a, 120), a AT TIME ZONE 'UTC' FROM t",
+        "ALTER TABLE t SET (SYSTEM_VERSIONING = OFF)", "GOTO lbl",
+    ],
+    "snowflake": [
+        "CREATE OR REPLACE PROCEDURE p() RETURNS INT LANGUAGE SQL AS $$ BEGIN RETURN 1; END $$", "SELECT a:b.c::int, PARSE_JSON(x):y[0] FROM t, LATERAL FLATTEN(input => t.x, outer => TRUE) f",
+        "COPY INTO t FROM @s/p FILE_FORMAT = (TYPE = CSV SKIP_HEADER = 1) PATTERN = '.*' ON_ERROR = CONTINUE", "SHOW TERSE TABLES LIKE 'x' IN SCHEMA s STARTS WITH 'a' LIMIT 1 FROM 'b'",
+        "SELECT * FROM t SAMPLE BERNOULLI (10) SEED (1) QUALIFY ROW_NUMBER() OVER (ORDER BY a) = 1", "CREATE STAGE s URL = 's3://x' CREDENTIALS = (AWS_KEY_ID = 'k')",
+        "ALTER SESSION SET x = 1", "SELECT * FROM t AT (TIMESTAMP => 'x'::timestamp) CHANGES (INFORMATION => DEFAULT)", "CREATE TABLE t (a INT AUTOINCREMENT START 1 INCREMENT 1, b VARIANT) CLUSTER BY (a)",
+        "SELECT * FROM t MATCH_CONDITION (a > b)", "SELECT a FROM t ASOF JOIN u MATCH_CONDITION (t.a >= u.a) ON t.k = u.k", "SELECT * EXCLUDE (a) RENAME (b AS c) ILIKE '%x%' FROM t",
+        "CREATE OR REPLACE TAG x ALLOWED_VALUES 'a'", "PUT file://x @s", "SELECT DATE_TRUNC('DAY', a), a LIKE ANY ('x') FROM t", "CREATE TABLE t CLONE u AT (OFFSET => -1)",
+    ],
+    "bigquery": [
+        "SELECT * EXCEPT (a) REPLACE (1 AS b) FROM `p.d.t` WHERE a IN UNNEST([1, 2])", "CREATE TEMP FUNCTION f(x INT64) RETURNS INT64 AS (x + 1)", "DECLARE x, y INT64 DEFAULT 1",
+        "SELECT ARRAY(SELECT AS STRUCT 1 AS a), STRUCT<a INT64>(1), SAFE_CAST(x AS INT64), x[OFFSET(0)], x[SAFE_ORDINAL(1)]",
+        "SELECT a FROM t FOR SYSTEM_TIME AS OF TIMESTAMP_SUB(CURRENT_TIMESTAMP(), INTERVAL 1 HOUR)", "FROM t |> WHERE a > 1 |> AGGREGATE COUNT(*) AS c GROUP BY b |> EXTEND c + 1 AS d",
+        "EXPORT DATA OPTIONS (uri = 'gs://x') AS SELECT 1", "CREATE TABLE t (a INT64 OPTIONS (description = 'x')) PARTITION BY DATE(b) CLUSTER BY a OPTIONS (k = 'v')",
+        "SELECT a FROM t WINDOW w AS (PARTITION BY a)", "SELECT WITH DIFFERENTIAL_PRIVACY OPTIONS (epsilon = 1) a FROM t", "BEGIN SELECT 1; EXCEPTION WHEN ERROR THEN SELECT 2; END",
+        "SELECT * FROM ML.PREDICT(MODEL m, TABLE t)", "SELECT FORMAT_DATE('%Y', d), PARSE_TIMESTAMP('%F', s), DATE_ADD(d, INTERVAL 1 DAY) FROM t",
+    ],
+    "clickhouse": [
+        "SELECT a FROM t FINAL SAMPLE 0.1 OFFSET 0.5 PREWHERE b > 1 WHERE c GLOBAL NOT IN (SELECT 1) LIMIT 1 BY a LIMIT 2 SETTINGS max_threads = 1 FORMAT JSON",
+        "CREATE TABLE t (a UInt8 CODEC(ZSTD(1)), b Nullable(String) DEFAULT 'x' TTL d + INTERVAL 1 DAY, INDEX i a TYPE minmax GRANULARITY 1) ENGINE = MergeTree ORDER BY (a) PARTITION BY b PRIMARY KEY a SETTINGS index_granularity = 1",
+        "SELECT arrayMap(x -> x + 1, [1, 2]), {p: UInt8}, quantile(0.5)(a), sumIf(a, b), a.1, t.b.^c FROM t", "SELECT a FROM t ARRAY JOIN b AS c LEFT ARRAY JOIN d",
+        "SELECT * FROM t GLOBAL ANY LEFT JOIN u USING (a) ASOF JOIN v ON t.a = v.a AND t.b >= v.b", "INSERT INTO t FORMAT Values", "ALTER TABLE t ON CLUSTER c DELETE WHERE a = 1",
+        "ALTER TABLE t REPLACE PARTITION p FROM u", "CREATE DICTIONARY d (a UInt8) PRIMARY KEY a SOURCE(CLICKHOUSE(TABLE 't')) LIFETIME(MIN 0 MAX 1) LAYOUT(FLAT())",
+        "SELECT a FROM t WITH FILL FROM 1 TO 2 STEP 1 INTERPOLATE (b AS b + 1)", "WITH 1 AS x SELECT x", "SELECT a FROM t GROUP BY a WITH ROLLUP WITH TOTALS",
+        "ATTACH TABLE t", "SELECT CAST(a, 'UInt8'), a::Nullable(Int8), toTypeName(a) FROM t", "SELECT * APPLY(sum) EXCEPT(a) FROM t",
+    ],
+    "postgres": [
+        "SELECT a FROM t WHERE b @> ARRAY[1] AND c ->> 'k' = 'v' AND d ~* 'x' AND e && f AND g <@ h", "INSERT INTO t VALUES (1) ON CONFLICT ON CONSTRAINT c DO NOTHING RETURNING *",
+        "CREATE FUNCTION f() RETURNS int LANGUAGE plpgsql AS $$ BEGIN RETURN 1; END $$", "SELECT * FROM generate_series(1, 3) WITH ORDINALITY AS g(x, n)",
+        "SELECT a::int[], b FROM t TABLESAMPLE SYSTEM (10) REPEATABLE (1)", "CREATE TABLE t (a int GENERATED ALWAYS AS IDENTITY, b text COLLATE \"C\", EXCLUDE USING gist (c WITH &&)) PARTITION BY RANGE (a)",
+        "COMMENT ON COLUMN t.a IS 'x'", "SELECT a FROM t FOR NO KEY UPDATE OF t SKIP LOCKED", "SELECT a FROM ONLY t, LATERAL (SELECT 1) l", "CREATE TABLE p PARTITION OF t FOR VALUES FROM (1) TO (2)",
+        "SELECT x IS JSON, y OVERLAPS z, a OPERATOR(pg_catalog.+) b, VARIADIC c FROM t", "SELECT $1, $2::text", "DO $$ BEGIN END $$", "VACUUM ANALYZE t", "LISTEN c",
+    ],
+    "mysql": [
+        "SELECT a FROM t USE INDEX (i) IGNORE INDEX FOR JOIN (j) WHERE MATCH(a, b) AGAINST('x' IN BOOLEAN MODE) LOCK IN SHARE MODE", "INSERT IGNORE INTO t SET a = 1 ON DUPLICATE KEY UPDATE a = VALUES(a)",
+        "CREATE TABLE t (a INT UNSIGNED AUTO_INCREMENT PRIMARY KEY, b ENUM('x', 'y') CHARACTER SET utf8 COLLATE utf8_bin, KEY k (b(10)), FULLTEXT INDEX f (b)) ENGINE=InnoDB DEFAULT CHARSET=utf8 AUTO_INCREMENT=5",
+        "SHOW FULL TABLES FROM db LIKE 'x'", "SHOW INDEX FROM t", "SELECT GROUP_CONCAT(DISTINCT a ORDER BY b SEPARATOR ',') FROM t", "SET @x := 1, @@global.y = 2", "ALTER TABLE t MODIFY COLUMN a BIGINT FIRST, ADD INDEX i (a) USING BTREE",
+        "SELECT a FROM t WHERE b MEMBER OF(c) XOR d AND e REGEXP 'x' AND f <=> g", "SELECT a FROM t STRAIGHT_JOIN u PARTITION (p0)", "REPLACE INTO t VALUES (1)", "SELECT CAST(a AS SIGNED), CONVERT(b USING utf8), CHAR(65 USING ascii) FROM t",
+        "LOCK TABLES t WRITE", "SELECT SQL_CALC_FOUND_ROWS a FROM t LIMIT 1 OFFSET 2 FOR UPDATE", "DELETE t1, t2 FROM t1 INNER JOIN t2 WHERE t1.a = t2.a",
+    ],
+    "oracle": [
+        "SELECT a FROM t START WITH a = 1 CONNECT BY NOCYCLE PRIOR a = b ORDER SIBLINGS BY a", "SELECT * FROM t WHERE ROWNUM <= 1 FETCH FIRST 1 ROWS WITH TIES", "SELECT a FROM t@dblink, TABLE(f(1)) WHERE x(+) = y",
+        "SELECT * FROM XMLTABLE('/r' PASSING x COLUMNS a INT PATH 'a') t", "SELECT /*+ INDEX(t i) */ a FROM t SAMPLE (10) SEED (1)", "CREATE TABLE t (a NUMBER(10, 2) DEFAULT ON NULL 1, b VARCHAR2(10 CHAR)) TABLESPACE ts",
+        "INSERT ALL INTO t VALUES (1) INTO u VALUES (2) SELECT 1 FROM dual", "SELECT LISTAGG(a, ',') WITHIN GROUP (ORDER BY b) OVER (PARTITION BY c), a BULK COLLECT INTO v FROM t", "SELECT JSON_TABLE(j, '$' COLUMNS (a INT PATH '$.a')) FROM t",
+        "SELECT a FROM t PIVOT XML (SUM(b) FOR c IN (ANY))", "SELECT DBMS_RANDOM.VALUE, SYSDATE, s.NEXTVAL FROM dual",
+    ],
+    "spark": [
+        "SELECT /*+ BROADCAST(t), REPARTITION(3) */ a, TRANSFORM(b, x -> x + 1) FROM t LATERAL VIEW OUTER EXPLODE(c) e AS d CLUSTER BY a", "CREATE TABLE t (a INT COMMENT 'x') USING PARQUET PARTITIONED BY (b) CLUSTERED BY (a) INTO 4 BUCKETS TBLPROPERTIES ('k'='v')",
+        "INSERT OVERWRITE TABLE t PARTITION (b = 1, c) IF NOT EXISTS SELECT 1", "SELECT a FROM t DISTRIBUTE BY a SORT BY b", "CACHE LAZY TABLE t OPTIONS ('k' = 'v') AS SELECT 1", "REFRESH TABLE t", "SELECT * FROM t TABLESAMPLE (10 ROWS)",
+        "ADD JAR x", "SELECT TRANSFORM(a, b) USING 'cat' AS (c, d) FROM t", "SELECT a FROM t WHERE b RLIKE 'x' AND c <=> d", "ALTER TABLE t ADD COLUMNS (a INT AFTER b)", "DESCRIBE FORMATTED t PARTITION (a = 1)", "SELECT 1Y, 2S, 3L, 4.0BD, 5D, 6F",
+    ],
+    "duckdb": [
+        "SELECT a, COLUMNS('x.*'), * EXCLUDE (b) FROM t POSITIONAL JOIN u QUALIFY ROW_NUMBER() OVER () = 1", "PIVOT t ON a IN ('x') USING SUM(b) GROUP BY c", "UNPIVOT t ON a, b INTO NAME n VALUE v",
+        "SELECT {'a': 1}.a, [1, 2][1:2], x -> x + 1, MAP {1: 2}, a ** 2, a // 2, list_transform(l, x -> x) FROM t", "ATTACH 'x.db' AS x (READ_ONLY)", "SUMMARIZE SELECT 1", "SELECT * FROM t ASOF LEFT JOIN u USING (a)",
+        "INSTALL x", "CREATE MACRO f(x, y := 1) AS x + y", "COPY t TO 'x' (FORMAT PARQUET, PARTITION_BY (a))", "SELECT * FROM read_csv('x', header = TRUE) USING SAMPLE 10%", "FROM t SELECT a WHERE b", "SELECT a FROM t GROUP BY ALL ORDER BY ALL LIMIT 10%",
+        "CREATE TYPE e AS ENUM ('a', 'b')", "SELECT $1, ?, $p", "SELECT STRUCT_PACK(a := 1), UNION_VALUE(k := 1), a::STRUCT(x INT)[] FROM t",
+    ],
+    "hive": ["SELECT a FROM t LATERAL VIEW EXPLODE(b) e AS c WHERE d RLIKE 'x' CLUSTER BY a", "CREATE EXTERNAL TABLE t (a INT) ROW FORMAT DELIMITED FIELDS TERMINATED BY ',' STORED AS TEXTFILE LOCATION 'x'", "INSERT OVERWRITE DIRECTORY 'x' SELECT 1", "MSCK REPAIR TABLE t", "ALTER TABLE t SET SERDEPROPERTIES ('k' = 'v')"],
+    "teradata": ["SEL a FROM t SAMPLE 10", "SELECT a FROM t QUALIFY RANK() OVER (ORDER BY a) = 1", "CREATE VOLATILE TABLE t AS (SELECT 1 AS a) WITH DATA PRIMARY INDEX (a) ON COMMIT PRESERVE ROWS", "LOCKING ROW FOR ACCESS SELECT a FROM t", "UPDATE t FROM u SET a = 1 WHERE t.k = u.k", "SELECT CAST(a AS DATE FORMAT 'YYYY-MM-DD'), b MOD 2, c ** 2 FROM t", "COLLECT STATISTICS ON t COLUMN (a)"],
+    "redshift": ["CREATE TABLE t (a INT ENCODE ZSTD, b VARCHAR(MAX)) DISTSTYLE KEY DISTKEY(a) COMPOUND SORTKEY(a, b)", "UNLOAD ('SELECT 1') TO 's3://x' IAM_ROLE 'r' PARQUET", "SELECT APPROXIMATE COUNT(DISTINCT a) FROM t", "COPY t FROM 's3://x' IAM_ROLE 'r' CSV GZIP", "SELECT a.b[0].c FROM t AS a", "ALTER TABLE t ALTER SORTKEY (a)"],
+    "sqlite": ["INSERT OR REPLACE INTO t VALUES (1)", "SELECT a FROM t WHERE b MATCH 'x' AND c GLOB 'y' AND d NOTNULL", "CREATE TABLE t (a INTEGER PRIMARY KEY AUTOINCREMENT, b TEXT) WITHOUT ROWID, STRICT", "ATTACH DATABASE 'x' AS y", "SELECT a FROM t INDEXED BY i LIMIT 1 OFFSET 2"],
+    "databricks": ["SELECT a:b.c, a::int, TRY_CAST(b AS INT) FROM t", "CREATE TABLE t (a INT GENERATED ALWAYS AS IDENTITY) USING DELTA LOCATION 'x'", "OPTIMIZE t ZORDER BY (a)", "COPY INTO t FROM 'x' FILEFORMAT = CSV FORMAT_OPTIONS ('h' = 't') COPY_OPTIONS ('m' = 't')", "SELECT * FROM t VERSION AS OF 1", "DESCRIBE HISTORY t"],
+    "doris": ["CREATE TABLE t (a INT) UNIQUE KEY (a) DISTRIBUTED BY HASH (a) BUCKETS 3 PROPERTIES ('k' = 'v')", "SELECT a FROM t PARTITION (p) TABLET (1)", "CREATE MATERIALIZED VIEW v BUILD IMMEDIATE REFRESH AUTO ON SCHEDULE EVERY 1 DAY AS SELECT 1"],
+    "starrocks": ["CREATE TABLE t (a INT) PRIMARY KEY (a) DISTRIBUTED BY HASH (a) BUCKETS 3 ORDER BY (a) PROPERTIES ('k' = 'v')", "SELECT a FROM t, UNNEST(b) AS u(c)", "REFRESH MATERIALIZED VIEW v"],
+    "presto": ["SELECT a FROM t CROSS JOIN UNNEST(b) WITH ORDINALITY AS u (c, n)", "SELECT TRY_CAST(a AS ROW(x INT, y ARRAY(VARCHAR))), ELEMENT_AT(m, 'k'), a IS DISTINCT FROM b FROM t", "SELECT * FROM t TABLESAMPLE SYSTEM (10)", "PREPARE p FROM SELECT ?", "EXECUTE p USING 1"],
+    "athena": ["CREATE EXTERNAL TABLE t (a INT) PARTITIONED BY (b STRING) STORED AS PARQUET LOCATION 's3://x' TBLPROPERTIES ('k' = 'v')", "SELECT a FROM t CROSS JOIN UNNEST(b) AS u (c)", "UNLOAD (SELECT 1) TO 's3://x' WITH (format = 'PARQUET')", "MSCK REPAIR TABLE t"],
+    "exasol": ["SELECT a FROM t WHERE b REGEXP_LIKE 'x' GROUP BY LOCAL.c", "CREATE TABLE t (a DECIMAL(18, 0) IDENTITY, b VARCHAR(10) UTF8, DISTRIBUTE BY a)", "SELECT a FROM t QUALIFY ROW_NUMBER() OVER (ORDER BY a) = 1 LIMIT 1"],
+    "materialize": ["CREATE SOURCE s FROM KAFKA CONNECTION c (TOPIC 't') FORMAT JSON", "SELECT a FROM t AS OF 1", "SELECT MAP['a' => 1], LIST[1, 2]", "SUBSCRIBE TO t"],
+    "risingwave": ["CREATE SOURCE s (a INT) WITH (connector = 'kafka') FORMAT PLAIN ENCODE JSON", "SELECT a FROM TUMBLE(t, ts, INTERVAL '1' MINUTE)", "CREATE SINK k FROM t WITH (connector = 'x')"],
+    "singlestore": ["SELECT a::$b, c::%d, e :> INT, f !:> TEXT FROM t", "CREATE ROWSTORE TABLE t (a INT, SHARD KEY (a), SORT KEY (a))", "SELECT a FROM t WHERE b MATCH ANY 'x'", "CREATE PIPELINE p AS LOAD DATA S3 'x' INTO TABLE t"],
+    "dune": ["SELECT 0xabcd, x'AB', X'CD' FROM t"],
+    "drill": ["SELECT a FROM dfs.`x/y.json` AS t WHERE FLATTEN(b) IS NOT NULL"],
+    "druid": ["SELECT FLOOR(__time TO HOUR), MV_TO_ARRAY(a) FROM t WHERE __time >= CURRENT_TIMESTAMP - INTERVAL '1' DAY"],
+    "dremio": ["SELECT a FROM t AT BRANCH main", "SELECT TO_CHAR(a, 'yyyy'), CURRENT_DATE_UTC FROM t"],
+    "fabric": ["SELECT TOP 1 a, CAST(b AS DATETIME2(6)) FROM t", "CREATE TABLE t (a VARCHAR(MAX), b UNIQUEIDENTIFIER)"],
+    "solr": ["SELECT a FROM t WHERE b = 'x' OR c LIKE 'y' LIMIT 10"],
+    "tableau": ["SELECT IF a THEN b ELSE c END, COUNTD(a), [x y] FROM t"],
+    "prql": ["from t | filter a > 1 | derive {b = a + 1} | select {a, b} | sort {-a} | take 10", "from t | group {a} (aggregate {c = count this}) | join u (==a)"],
+    "dax": ["EVALUATE SUMMARIZECOLUMNS('t'[a], \"x\", SUM('t'[b]))"],
+}
 
 
 # =========================================================================================== minimise + key
@@ -1333,13 +1637,16 @@ def finding_key(verdict: dict, dialect, skel: str | None) -> str:
 
 def loop_owner(sql, dialect, level, write, verdict) -> str:
     """the method that owns a spinning loop: deepest `_parse_*` frame common to the stacks at two different budgets"""
-    v2 = run_pipeline(sql, dialect, level, write, scale=1.37)
-    a, b = verdict.get("stack") or [], v2.get("stack") or []
-    common = []
-    for x, y in zip(a, b):
-        if x != y:
-            break
-        common.append(x)
+    common = list(verdict.get("stack") or [])
+    # budgets that differ by a few units stop the spinning loop at different points of its body
+    for scale in (1.37, 1.3707, 1.3719, 1.3731, 1.3747, 1.3761, 1.3779, 1.3803, 1.3817, 1.3841, 1.39, 1.41):
+        b = run_pipeline(sql, dialect, level, write, scale=scale).get("stack") or []
+        keep = []
+        for x, y in zip(common, b):
+            if x != y:
+                break
+            keep.append(x)
+        common = keep
     for name in reversed(common):
         if name.split(".")[-1].startswith("_parse_") and name.split(".")[-1] not in GENERIC_PARSE_HELPERS:
             return name
@@ -1396,7 +1703,7 @@ TOKMAP = ["L_PAREN", "R_PAREN", "COMMA", "VAR", "NUMBER", "SELECT", "FROM", "DOT
 
 def rand_prog(rng, depth=0, wf=False):
     """random combinator program (JSON shape shared with the Lean driver)"""
-    leafs = ["eps", "nothing", "tok", "tokSet", "peek", "pair", "anyTok", "fail", "textSeq", "textSeq", "restOfChunk"] + ([] if wf else ["advance"])
+    leafs = ["eps", "nothing", "tok", "tokSet", "peek", "pair", "anyTok", "fail", "textSeq", "textSeq", "restOfChunk", "peekAt", "peekAt"] + ([] if wf else ["advance"])
     if depth >= 4 or rng.random() < 0.3:
         k = rng.choice(leafs)
         if k in ("tok", "peek"):
@@ -1407,6 +1714,8 @@ def rand_prog(rng, depth=0, wf=False):
             return [k, rng.randrange(len(TOKMAP)), rng.randrange(len(TOKMAP))]
         if k == "textSeq":
             return [k, [rng.randrange(9) for _ in range(rng.randint(0, 3))], rng.random() < 0.7]
+        if k == "peekAt":
+            return [k, rng.randint(0, 3), rng.randrange(len(TOKMAP)), "strict" if wf else rng.choice(["strict", "strict", "offByOne", "none"])]
         return [k]
     k = rng.choice(["andThen", "both", "orElse", "attempt", "tryParse", "tryParse", "csv", "csv", "wrapped", "wrapped", "many",
                     "ifTok", "tableLoop", "tableLoop"])
@@ -1487,6 +1796,10 @@ def interp(psr, prog, fuel, TT):
         return psr._parse_wrapped(lambda: interp(psr, prog[1], fuel, TT), optional=prog[2])
     if k == "textSeq":
         return psr._match_text_seq(*[TOKMAP[i] for i in prog[1]], advance=prog[2])
+    if k == "peekAt":
+        j = psr._index + prog[1]
+        ok = {"strict": j < psr._tokens_size, "offByOne": not (j > psr._tokens_size), "none": True}[prog[3]]
+        return ok and psr._tokens[j].token_type == TT[prog[2]]
     if k == "restOfChunk":
         while psr._curr:
             psr._advance()
@@ -1583,6 +1896,9 @@ def correspond_programs(chk: Check) -> list:
         (["tableLoop", [7], ["eps"], False], [7, 3], "RAISE"),
         (["ifTok", [5], ["tok", 3], ["ifTok", [6], ["restOfChunk"], ["tok", 3]]], [6, 1, 1, 1], "RAISE"),
         (["both", ["restOfChunk"], ["restOfChunk"]], [3, 3], "IMMEDIATE"),
+        (["both", ["tok", 9], ["peekAt", 3, 0, "offByOne"]], [9, 5, 6, 7], "IMMEDIATE"),
+        (["both", ["tok", 9], ["peekAt", 3, 0, "strict"]], [9, 5, 6, 7], "RAISE"),
+        (["tryParse", ["peekAt", 2, 3, "none"], False], [3], "WARN"),
         (["andThen", ["pair", 3, 4], ["anyTok"]], [3, 4], "RAISE"),
         (["csv", ["tryParse", ["andThen", ["tok", 3], ["andThen", ["tok", 3], ["fail"]]], False], 2], [3, 3, 2, 3], "WARN"),
     ]
@@ -1833,6 +2149,7 @@ def search(chk: Check, hints: list, budget_s: float) -> None:
     dialects = all_dialects()
     t0 = time.time()
     tried = failing = 0
+    MAXV = int(os.environ.get("C05_MAX_VIOLATIONS", "8"))
     breaches: dict = {}
     maxr = {"parse_lin": 0.0, "parse_quad": 0.0, "tok": 0.0, "gen": 0.0, "work": 0.0}
     corpus = []
@@ -1885,9 +2202,17 @@ def search(chk: Check, hints: list, budget_s: float) -> None:
     # deterministic sweep: every constraint / property keyword in element position of column lists and schema definitions
     for d in ["", rng.choice(dialects)]:
         for i, sql in enumerate(element_sweep(d)):
-            if len(chk.violations) >= 8:
+            if len(chk.violations) >= MAXV:
                 break
             one(sql, d, LEVELS[1 + (i % 3)], None, "element-sweep")
+    # systematic prefix sweep of the statement corpus (every token position; chunk end right after the prefix)
+    n_pre = 0
+    for i, (sql, d) in enumerate(prefix_sweep(dialects, chk.quick)):
+        if len(chk.violations) >= MAXV or time.time() - t0 > budget_s:
+            break
+        one(sql, d, LEVELS[i % 4], None, "prefix-sweep")
+        n_pre += 1
+    chk.cov["prefix_sweep_inputs"] = n_pre
     # tokenizer-only phase: adversarial delimiter / keyword-case stream and length stress, per dialect, from the live tables
     n_tok = 0
     stress_dialects = dialects if not chk.quick else sorted({"", "dune"} & set(dialects)) + rng.sample(dialects, min(3, len(dialects)))
@@ -1897,7 +2222,7 @@ def search(chk: Check, hints: list, budget_s: float) -> None:
             stream += list(tokenizer_stress(d, chk.pick(2000, 3000)))
         for sql in stream:
             n_tok += 1
-            if tokenize_only(sql, d) is not None and len(chk.violations) < 8:
+            if tokenize_only(sql, d) is not None and len(chk.violations) < MAXV:
                 one(sql, d, "IMMEDIATE", None, "tokenizer-stream")
     chk.cov["tokenizer_stream_inputs"] = n_tok
     chk.count("input:tokenizer-only", n_tok)
@@ -1911,15 +2236,26 @@ def search(chk: Check, hints: list, budget_s: float) -> None:
             words = tkw["all"] if not d else sorted(set(tkw["specific"]) | set(rng.sample(tkw["all"], min(25, len(tkw["all"])))))
         shape = (None, None) if not chk.quick else ((5, 6) if not d else (None, 7))
         for i, sql in enumerate(keyword_sweep(d, words, *shape)):
-            if len(chk.violations) >= 8 or time.time() - t0 > budget_s:
+            if len(chk.violations) >= MAXV or time.time() - t0 > budget_s:
                 break
             one(sql, d, LEVELS[i % 4], None, "keyword-sweep")
             n_sweep += 1
+    # statement / function / property / constraint parsers a dialect adds or overrides: the keyword at statement start, as a
+    # function head and in property / constraint position, cut off at every point of a short continuation
+    ENTRY_FORMS = ["{K}", "{K} x", "{K} (", "{K} TABLE t", "{K} x (", "SELECT {K}(", "SELECT {K}(x", "SELECT {K}(x,", "SELECT {K}(x, y) FROM",
+                   "CREATE TABLE t (a INT {K}", "CREATE TABLE t (a INT {K} (", "CREATE TABLE t (a INT) {K}", "CREATE TABLE t (a INT) {K} = (", "{K} f() RETURNS int BEGIN"]
+    for d in dialects:
+        for w in table_keywords(d)["entry_specific"]:
+            for i, form in enumerate(ENTRY_FORMS[::2] + ENTRY_FORMS[-1:] if chk.quick else ENTRY_FORMS):
+                if len(chk.violations) >= MAXV or time.time() - t0 > budget_s:
+                    break
+                one(form.replace("{K}", w), d, LEVELS[i % 4], None, "keyword-sweep")
+                n_sweep += 1
     chk.cov["keyword_sweep_inputs"] = n_sweep
     # a fixed number of inputs per tier (deterministic for a given VERIF_SEED), with the time budget as a safety cap
-    n_inputs = int(os.environ.get("C05_INPUTS", "0")) or (chk.pick(1800, 70000) * (2 if chk.broken else 1))
+    n_inputs = int(os.environ.get("C05_INPUTS", "0")) or (chk.pick(1200, 70000) * (2 if chk.broken else 1))
     for _ in range(n_inputs):
-        if time.time() - t0 > budget_s or len(chk.violations) >= int(os.environ.get("C05_MAX_VIOLATIONS", "8")):
+        if time.time() - t0 > budget_s or len(chk.violations) >= MAXV:
             break
         d = rng.choice(dialects)
         kind, sql = gen_input(rng, gen, dialect_keywords(d), table_keywords(d)["all"])
